@@ -201,6 +201,31 @@ def programs(rng, tier):
             else:
                 prog.append(["l%d" % lim, "binlim", str(lim), t, "$a", "$b"])
         progs.append(prog)
+    # dry runs and limited operators under input flips on operands that SKIP levels differently: one operand over the upper
+    # variables only, the other over all, the flip variable inside the support of the skipping operand (the order in which "is
+    # this the decision variable" and "is this the flip variable" are asked matters exactly when a node tests the flip
+    # variable while the other operand is still at a smaller level)
+    for _ in range(150 if tier == "quick" else 4000):
+        nv = rng.choice([3, 4, 5, 6])
+        cut = rng.randrange(1, nv)
+        up = sorted(rng.sample(range(cut, nv), rng.randrange(1, nv - cut + 1)))
+        a = bdd_from_tt(nv, up, [rng.random() < 0.5 for _ in range(1 << len(up))])
+        allv = sorted(set(rng.sample(range(nv), rng.randrange(1, nv + 1))) | {rng.randrange(0, cut)})
+        b = bdd_from_tt(nv, allv, [rng.random() < 0.5 for _ in range(1 << len(allv))])
+        if len(a) < 3 or len(b) < 3:
+            continue
+        swap = rng.random() < 0.5
+        f_skip = rng.choice(up)
+        f_other = rand_optvar(rng, nv, 0.5)
+        fo = rand_optvar(rng, nv, 0.7)
+        x, y, fa, fb = (b, a, f_other, f_skip) if swap else (a, b, f_skip, f_other)
+        t = partial_table(rng, rng.choice(CONNS))
+        prog = [["a", "id", bdd_sx(x)], ["b", "id", bdd_sx(y)], ["full", "fbin", t, optvar(fa), optvar(fb), optvar(fo), "$a", "$b"],
+                ["dinf", "dry", "100000000", t, optvar(fa), optvar(fb), optvar(fo), "$a", "$b"]]
+        for lim in (0, 1, 2, 3, 5, 8):
+            prog.append(["d%d" % lim, "dry", str(lim), t, optvar(fa), optvar(fb), optvar(fo), "$a", "$b"])
+            prog.append(["l%d" % lim, "fbinlim", str(lim), t, optvar(fa), optvar(fb), optvar(fo), "$a", "$b"])
+        progs.append(prog)
     # limits that do not fit 32 bits (the result is small: every such limit must answer Some / the count)
     for _ in range(12 if tier == "quick" else 300):
         nv = rng.choice([2, 3, 4, 5])
